@@ -386,6 +386,10 @@ def finish(prop, mod, args, seed, cells, results, t0):
             new_viol.append(v)
     for kid, h in known_hits.items():
         print(f"KNOWN-FINDING: property={prop} {h['finding']['what']} [{kid}; {h['n']} obligation(s), e.g. {h['keys'][0]}]")
+    if os.environ.get("VERIF_DUMP"):
+        with open(os.environ["VERIF_DUMP"], "w") as f:
+            for v in violations:
+                f.write(v["key"] + " :: " + str(v.get("replay_detail") or v.get("detail")) + "\n")
     vio_lines = []
     for v in new_viol[:20]:
         hh = hashlib.sha1(json.dumps(_jsonable([v["cfg"], v["name"]]), sort_keys=True).encode()).hexdigest()[:12]
